@@ -104,6 +104,8 @@ impl<'a> Generator<'a> {
             .values()
             .map(|[_snake, pascal]| pascal)
             .collect::<Vec<_>>();
+        #[cfg(feature = "verif_hooks")]
+        crate::verif_hooks::permute("all_idents_pascal", &mut all_idents_pascal);
         // Sort for repeatability (not dependent on hashmap iteration order)
         all_idents_pascal.sort_unstable();
 
@@ -353,6 +355,8 @@ impl<'a> Generator<'a> {
     /// TokenStream.
     pub fn render_luts(&self) -> TokenStream {
         let mut sorted = self.loop_masks.iter().collect::<Vec<_>>();
+        #[cfg(feature = "verif_hooks")]
+        crate::verif_hooks::permute("render_luts", &mut sorted);
         sorted.sort_unstable_by_key(|(_bits, id)| **id);
         let decls = sorted.chunks(8).enumerate().map(|(lut_idx, bit_arrs)| {
             let mut byte_arr = [0u8; 256];
